@@ -5,6 +5,7 @@ import (
 	"math"
 	"sort"
 	"strings"
+	"time"
 
 	"verifharness/kit"
 )
@@ -12,6 +13,22 @@ import (
 func float64frombits(u uint64) float64 { return math.Float64frombits(u) }
 
 const sec = int64(1000000000)
+
+// caseDur is the duration the current case is built around (sample(d), flatten/combine tolerance, point times on and off
+// its boundaries). time.Truncate/Round count from Go's zero time (year 1, 62135596800 s before the Unix epoch): the pool
+// mixes durations that divide that offset (1s 2s 3s 5s) with durations that do not (7s 11s 13s 7ms 36h 1w), for which
+// "multiple of d" differs between the two origins.
+var caseDur = sec
+var durPool = []int64{sec, 2 * sec, 3 * sec, 5 * sec, 7 * sec, 7 * sec, 11 * sec, 13 * sec, 7000000, 36 * 3600 * sec, 7 * 24 * 3600 * sec}
+
+func goTrunc(t, d int64) int64 { return time.Unix(0, t).UTC().Truncate(time.Duration(d)).UnixNano() }
+
+func pickDur(r *kit.Rand) int64 {
+	if r.Chance(2, 3) {
+		return caseDur
+	}
+	return kit.Pick(r, durPool)
+}
 
 // ---- pools ----
 
@@ -149,8 +166,8 @@ func genNode(r *kit.Rand, kind string) string {
 	case "shift":
 		return fmt.Sprintf("shift d=%d", kit.Pick(r, []int64{sec, 5 * sec, 1500000000, -sec, -2500000000}))
 	case "sample":
-		if r.Chance(1, 3) {
-			return fmt.Sprintf("sample n=0 d=%d", kit.Pick(r, []int64{sec, 2 * sec, 5 * sec}))
+		if r.Chance(1, 2) {
+			return fmt.Sprintf("sample n=0 d=%d", pickDur(r))
 		}
 		return fmt.Sprintf("sample n=%d d=0", 1+r.Intn(3))
 	case "derivative":
@@ -169,7 +186,7 @@ func genNode(r *kit.Rand, kind string) string {
 			drop = 1
 		}
 		return fmt.Sprintf("flatten on=%s delim=%s tol=%d drop=%d", escList(on), kit.Esc(kit.Pick(r, []string{".", "_", "", ":", "."})),
-			kit.Pick(r, []int64{0, 0, sec, 2 * sec}), drop)
+			kit.Pick(r, []int64{0, 0, sec, pickDur(r), pickDur(r)}), drop)
 	case "combine":
 		leaves := []string{"b:1", "eq,r:h,s:a", "eq,r:p,s:80", "gt,r:v,i:2", "eq,r:h,s:b", "ne,r:p,s:80"}
 		k := 2
@@ -181,7 +198,7 @@ func genNode(r *kit.Rand, kind string) string {
 			es = append(es, kit.Pick(r, leaves))
 		}
 		return fmt.Sprintf("combine e=%s as=%s delim=%s tol=%d max=0", strings.Join(es, "|"), escList([]string{"A", "B", "C"}[:k]),
-			kit.Esc(kit.Pick(r, []string{".", "_"})), kit.Pick(r, []int64{0, 0, sec}))
+			kit.Esc(kit.Pick(r, []string{".", "_"})), kit.Pick(r, []int64{0, 0, sec, pickDur(r)}))
 	case "groupBy":
 		all := 0
 		dims := subset(r, []string{"h", "dc", "p", "zz"}, 0)
@@ -235,9 +252,31 @@ func genPoints(r *kit.Rand, n int) []string {
 	nVals := 1 + r.Intn(3)
 	twoNames := r.Chance(1, 5)
 	intOnly := r.Chance(1, 3)
+	boundary := r.Chance(1, 2)
 	for i := 0; i < n; i++ {
 		t += kit.Pick(r, []int64{0, 0, sec, sec, sec / 2, 2 * sec, 3 * sec, 250000000})
+		if boundary && caseDur <= 13*sec && r.Chance(1, 4) {
+			t += caseDur
+		}
 		tt := t
+		if boundary {
+			// on, just off, half way between and one Unix-epoch multiple away from the boundaries of caseDur
+			switch r.Intn(8) {
+			case 0, 1, 2:
+				tt = goTrunc(t, caseDur)
+			case 3:
+				tt = goTrunc(t, caseDur) + 1
+			case 4:
+				tt = goTrunc(t, caseDur) + caseDur/2
+			case 5:
+				tt = t - t%caseDur // a multiple counted from the Unix epoch
+			case 6:
+				tt = goTrunc(t, caseDur) + caseDur/2 - 1
+			}
+			if tt > t {
+				t = tt
+			}
+		}
 		if r.Chance(1, 40) {
 			tt = t - 2*sec // out of order
 		}
@@ -285,6 +324,7 @@ func min(a, b int) int {
 
 // genCase: a tree of ≤ maxNodes transforming nodes under from(); every 3rd case runs on batch edges (a window in front).
 func genCase(r *kit.Rand, i int, tier string) []string {
+	caseDur = kit.Pick(r, durPool)
 	if i%7 == 3 {
 		return directed(r, i/7)
 	}
@@ -401,6 +441,27 @@ func directed(r *kit.Rand, k int) []string {
 		// sample per group
 		{[]string{"node 1 0 groupBy dims=h all=0 excl=- byName=0", "node 2 1 sample n=2 d=0", "node 3 1 sample n=0 d=2000000000", "node 4 0 sample n=3 d=0"},
 			pts("pt m h=a v=i:1 1000000000000", "pt m h=b v=i:2 1000000000000", "pt m h=a v=i:3 1001000000000", "pt m h=a v=i:4 1002000000000", "pt m h=b v=i:5 1003000000000", "pt m h=a v=i:6 1003500000000", "pt m h=b v=i:7 1004000000000")},
+	}
+	// sample(7s) / sample(11s) / sample(1w) on points that sit on the boundaries counted from Go's zero time, on the multiples
+	// counted from the Unix epoch (which are NOT boundaries for these durations), and next to them
+	{
+		var ps []string
+		base := 1000 * sec
+		for j, d := range []int64{7 * sec, 11 * sec, 7 * 24 * 3600 * sec} {
+			b := goTrunc(base+int64(j)*40*sec, d)
+			if b < base {
+				b = goTrunc(base+int64(j)*40*sec+d, d)
+			}
+			u := (base + int64(j)*40*sec) - (base+int64(j)*40*sec)%d
+			for _, t := range []int64{b, b + 1, u, b + d/2} {
+				if t > 0 {
+					ps = append(ps, fmt.Sprintf("pt m h=a v=i:%d %d", j, t))
+				}
+			}
+		}
+		sort.SliceStable(ps, func(i, j int) bool { return atoi(strings.Fields(ps[i])[4]) < atoi(strings.Fields(ps[j])[4]) })
+		cases = append(cases, d{[]string{"node 1 0 sample n=0 d=7000000000", "node 2 0 sample n=0 d=11000000000", "node 3 0 sample n=0 d=604800000000000",
+			"node 4 0 window pc=4 ec=4", "node 5 4 sample n=0 d=7000000000", "node 6 0 flatten on=h delim=. tol=7000000000 drop=0"}, ps})
 	}
 	c := cases[k%len(cases)]
 	lines := []string{"node 0 - from"}
